@@ -11,6 +11,8 @@ lit = re.compile(r'"((?:[^"\\]|\\.)*)"', re.S)
 raw = re.compile(r'r(#*)"(.*?)"\1', re.S)
 word = re.compile(r'^[A-Za-z0-9%:_./{}<>@#$+=,~^\-\u0080-\U0010ffff]{2,40}$')
 tokens = set()
+options = set()
+optword = re.compile(r'^-[A-Za-z][A-Za-z0-9-]{1,24}$')
 
 def unescape(s):
     s = re.sub(r'\\u\{([0-9a-fA-F]{1,6})\}', lambda m: chr(int(m.group(1), 16)), s)
@@ -24,6 +26,8 @@ def add(text):
     for p in list(pieces):
         pieces.add(p.strip('"\'()[]'))
     for p in pieces:
+        if optword.match(p):
+            options.add(p)
         if word.match(p) and not p.startswith('-') and not p.isdigit():
             tokens.add(p)
 
@@ -38,3 +42,6 @@ for base, _, files in sorted(os.walk(os.path.join(repo, "src"))):
         for m in lit.finditer(src):
             add(unescape(m.group(1)))
 json.dump(sorted(tokens), open(out, "w"), ensure_ascii=False, indent=0)
+# words that look like options, tests or actions of a find expression: the generators try them as
+# leading options and as leaves, so that syntax added by a change is exercised the day it is written
+json.dump(sorted(options), open(out.replace("dict.json", "dict_options.json"), "w"), indent=0)
